@@ -215,6 +215,14 @@ pub fn verif_min_by_key_pair<'a>(m: &'a MapTvPairToFo) -> (r: Option<(&'a Key, &
             && (forall|k2: Key| #[trigger] m@.contains_key(k2) ==> !(key_lt(k2, *r.unwrap().0) || (k2 == *r.unwrap().0 && m@[k2] < *r.unwrap().1))),
 { unimplemented!() }
 
+/// stand-in for a selection expression that is NOT the expected one: assumed only what its type gives -- some entry
+#[verifier::external_body]
+pub fn verif_select_some_pair<'a>(m: &'a MapTvPairToFo) -> (r: Option<(&'a Key, &'a FileOffset)>)
+    ensures
+        r is None <==> m@.dom() =~= Set::<Key>::empty(),
+        r is Some ==> m@.contains_key(*r.unwrap().0) && m@[*r.unwrap().0] == *r.unwrap().1,
+{ unimplemented!() }
+
 /// every key is a genuine selected record, stored under (time, offset) with value = offset
 pub open spec fn keys_ok(m: Map<Key, FileOffset>, file: Seq<u8>, ft: FixedStructType, n: int) -> bool {
     forall|key: Key| #[trigger] m.contains_key(key) ==> {
@@ -298,7 +306,7 @@ impl FixedStructReader {
 //@end
 
 //@cut fn path=src/readers/fixedstructreader.rs impl=FixedStructReader name=fileoffset_first ret=r
-//@replace "self.map_tvpair_fo.iter().min_by_key(|(tv_pair, fo)| (*tv_pair, *fo))" "verif_min_by_key_pair(&self.map_tvpair_fo)"
+//@replace_chain "self.map_tvpair_fo.iter()" when="self.map_tvpair_fo.iter().min_by_key(|(tv_pair, fo)| (*tv_pair, *fo))" then="verif_min_by_key_pair(&self.map_tvpair_fo)" else="verif_select_some_pair(&self.map_tvpair_fo)"
 //@spec
     requires self.wf()
     ensures
